@@ -476,6 +476,7 @@ pub fn variants(tier: Tier) -> Vec<(String, M, usize)> {
 }
 
 pub fn run_object_level(ctx: &Ctx) {
+    super::c05n::run_node_level(ctx);
     for (i, (fam, m, depth)) in variants(ctx.tier).into_iter().enumerate() {
         let res = explore::explore(
             ctx,
@@ -490,6 +491,9 @@ pub fn run_object_level(ctx: &Ctx) {
 }
 
 pub fn replay_object_level(family: &str, case: &Value) -> Option<CaseResult> {
+    if family == "node_deviations" {
+        return super::c05n::replay_node_level(case);
+    }
     let fam = family.trim_end_matches("-audit");
     let (_, m, _) = variants(Tier::Thorough).into_iter().find(|(f, _, _)| f == fam)?;
     let hist: Vec<Ev> = serde_json::from_value(case["history"].clone()).ok()?;
